@@ -3,7 +3,7 @@ import copy, os
 from . import core, eng, engcheck, sgen, surfcheck, tieb, surface as S
 
 THEOREMS = ["expand_hygienic", "ideal_vars", "tagVar_inj", "tagVar_ge", "gensyms_disjoint", "recursive_rejected", "recursive_rejected_msg", "recursive_rejected_heads",
-            "expandBody_total", "expandBody_mono", "f25_capture", "f25_ideal", "stdOps_opsLaws", "stdOps_varsLaws", "expand_hygienic_sem", "expand_hygienic_sem_std"]
+            "expandBody_total", "expandBody_mono", "f25_fixed", "f25_ideal", "f25_hygienic", "f25_by_theorem", "stdOps_opsLaws", "stdOps_varsLaws", "expand_hygienic_sem", "expand_hygienic_sem_std"]
 TRUSTED = ["Lean 4.33.0 kernel", "axioms: propext, Classical.choice, Quot.sound only (audited per theorem)",
            "statement: Props/C08.lean",
            "tools/vlib/surface.py expand_spec (macro bodies pasted with parameters substituted as identifiers / expressions, macro-local identifiers renamed freshly per invocation) "
@@ -29,7 +29,9 @@ def local_vars(x):
 
 
 def f25_class(p):
-    """some macro body contains a clause with conditions attached to it (no comma) that mention a macro-local identifier"""
+    """some macro body contains a clause with conditions attached to it (no comma) that mention a macro-local identifier.
+    This WAS the class of finding F25 (the hygiene pass skipped attached conditions); fixed by 3a6dc9a: the predicate no longer attributes
+    anything, it only counts how many programs of the former class were explored (they must pass like every other program)"""
     def walk(items):
         for it in items:
             if it[0] == "cl" and it[3] and local_vars(list(it[3])): return True
@@ -126,8 +128,8 @@ def f25_programs(rng, n):
         r = rng.fork(f"f25_{i}")
         p = base_schema()
         c = r.range(0, 3)
-        shape = ["capture", "param-only", "detached", "nested-capture"][i % 4]
-        if shape == "capture":          # `r0(v0, $p0) if v0 > c`: the condition's v0 is not renamed and reads the CALL SITE's v0
+        shape = ["capture", "param-only", "detached", "nested-capture", "attached-let", "attached-iflet"][i % 6]
+        if shape == "capture":          # `r0(v0, $p0) if v0 > c`: the condition's v0 must be the macro's v0, not the CALL SITE's v0 (the witness of F25)
             p["macros"] = [{"params": ["ident"], "body": [("cl", 0, [("v", 0), ("v", ("p", 0))], [("if", ("lt", c, ("var", 0)))])]}]
             p["rules"] = [{"heads": [(2, [("var", 0), ("var", 1)])], "body": [("cl", 1, [("v", 0)], []), ("mac", 0, [("id", 1)])]}]
         elif shape == "param-only":     # control: the attached condition mentions only the parameter
@@ -136,10 +138,18 @@ def f25_programs(rng, n):
         elif shape == "detached":       # control: the same condition written as a separate item
             p["macros"] = [{"params": ["ident"], "body": [("cl", 0, [("v", 0), ("v", ("p", 0))], []), ("if", ("lt", c, ("var", 0)))]}]
             p["rules"] = [{"heads": [(2, [("var", 0), ("var", 1)])], "body": [("cl", 1, [("v", 0)], []), ("mac", 0, [("id", 1)])]}]
-        else:                           # the attached condition sits in a macro invoked from another macro
+        elif shape == "nested-capture":  # the attached condition sits in a macro invoked from another macro
             p["macros"] = [{"params": ["ident"], "body": [("cl", 0, [("v", 0), ("v", ("p", 0))], [("if", ("ne", ("var", 0), c))])]},
                            {"params": ["ident"], "body": [("cl", 1, [("v", 1)], []), ("mac", 0, [("id", ("p", 0))])]}]
             p["rules"] = [{"heads": [(2, [("var", 0), ("var", 2)])], "body": [("cl", 1, [("v", 0)], []), ("mac", 1, [("id", 2)])]}]
+        elif shape == "attached-let":   # `r0(v0, $p0) let v1 = v0 + c if v1 < k`: an attached `let` BINDS a macro-local spelled like the call site's argument v1
+            p["macros"] = [{"params": ["ident"], "body": [("cl", 0, [("v", 0), ("v", ("p", 0))],
+                                                           [("let", 1, ("add", ("var", 0), c)), ("if", ("lt", ("var", 1), r.range(2, 5)))])]}]
+            p["rules"] = [{"heads": [(2, [("var", 0), ("var", 1)])], "body": [("cl", 1, [("v", 0)], []), ("mac", 0, [("id", 1)])]}]
+        else:                           # `r0(v0, $p0) if let Some(v1) = Some(v0 + c) if v1 != k`: an attached `if let` binds a macro-local
+            p["macros"] = [{"params": ["ident"], "body": [("cl", 0, [("v", 0), ("v", ("p", 0))],
+                                                           [("iflet", 1, ("somex", ("add", ("var", 0), c))), ("if", ("ne", ("var", 1), r.range(1, 4)))])]}]
+            p["rules"] = [{"heads": [(2, [("var", 0), ("var", 1)])], "body": [("cl", 1, [("v", 0)], []), ("mac", 0, [("id", 1)])]}]
         p["rules"].append({"heads": [(3, [("var", 0)])], "body": [("cl", 2, [("v", 0), ("_",)], [])]})
         out.append((p, shape))
     return out
@@ -241,11 +251,14 @@ def build(rng, tier):
     for i, (p, q, tags) in enumerate(sel):
         inputs = [sgen.gen_input(rng.fork(f"h{i}i{j}"), p) for j in range(4 if quick else 12)]
         add(f"h{i}", p, q, "general", inputs, bare=not f26_class(p))       # expression arguments without parentheses wherever grouping cannot matter
-    for i, (p, shape) in enumerate(f25_programs(rng.fork("f25"), 4 if quick else 12)):
+    nf25 = 0
+    for i, (p, shape) in enumerate(f25_programs(rng.fork("f25"), 6 if quick else 12)):
         q = S.expand_spec(p)
         inputs = [sgen.gen_input(rng.fork(f"f25_{i}i{j}"), p) for j in range(3 if quick else 8)]
-        if i == 0: inputs[0] = {0: [(1, 10), (-1, 10), (5, 20)], 1: [(1,), (-1,), (7,)], 2: [], 3: []}
-        add(f"a{i}", p, q, "f25-stream", inputs, cls="F25" if f25_class(p) else None)
+        if i == 0: inputs[0] = {0: [(1, 10), (-1, 10), (5, 20)], 1: [(1,), (-1,), (7,)], 2: [], 3: []}       # the witness of finding F25
+        nf25 += f25_class(p)
+        add(f"a{i}", p, q, "f25-stream", inputs)       # F25 is fixed (3a6dc9a): no class, sugared program = ideal expansion = model, or it is a violation
+    build.coverage["former_f25_class_programs"] = nf25 + sum(1 for p, _, _ in sel if f25_class(p))
     for i, (p, shape, bare) in enumerate(f26_programs(rng.fork("f26"), 5 if quick else 15)):
         q = S.expand_spec(p)
         inputs = [sgen.gen_input(rng.fork(f"f26_{i}i{j}"), p) for j in range(3 if quick else 8)]
@@ -268,9 +281,6 @@ def known(c, u, impl, model):
         if got and all(got.get(r, set()) == s for r, s in c.meta["bugspec"].items()):
             return ("F27", "`?None` inside a macro body: the hygiene pass renames the pattern identifier `None` like a macro-local variable (`?__None_`), "
                            "the argument then matches every value instead of only None")
-    if cl == "F25" and f25_class(u.surface) and model is not None and impl == model:
-        return ("F25", "a condition attached to a clause (`r(x) if c`, no comma) inside a macro body is not visited by the hygiene renaming: its macro-local identifiers "
-                       "keep their spelling and read (or bind) call-site variables of the same name")
     if cl == "F26" and u.meta.get("bare") and f26_class(u.surface):
         got, _ = engcheck.dump_sets(impl[-1]) if impl[-1].startswith("r0:") else ({}, None)
         if got and all(got.get(r, set()) == s for r, s in c.meta["bugspec"].items()):
@@ -326,9 +336,9 @@ MODULES = [m for m in ("AscentVerif.Props.C08", "AscentVerif.Props.C08Sem") if o
 
 
 def check(tier, replay=None):
-    rule = ("programs with in-program macros (ident / expr parameters; bodies with clauses, ?patterns, negation, detached conditions, disjunctions, nested invocations; head macros, "
+    rule = ("programs with in-program macros (ident / expr parameters; bodies with clauses, ?patterns, negation, conditions attached to clauses and detached, disjunctions, nested invocations; head macros, "
             "nested) x call patterns forced by quota (" + ", ".join(sgen.C08_TAGS) + "; macro-local and call-site variables share their spellings v0, v1, ..) x inputs; program and "
-            "printed ideal expansion both compiled by the real macros; targeted streams for F25 (attached conditions), F26 (expr parameter pasted as raw tokens), F27 (`?None` in a macro body); "
+            "printed ideal expansion both compiled by the real macros; targeted streams for the former class of F25 (attached conditions reading / binding macro-locals: fixed by 3a6dc9a, must pass), F26 (expr parameter pasted as raw tokens), F27 (`?None` in a macro body); "
             "recursive macros (direct, mutual, through heads, inside a disjunction) through the in-process pipeline, FM8 witness under a time budget")
     return surfcheck.run_surface_property("C08", tier, modules=MODULES, theorems=THEOREMS, trusted=TRUSTED, group="c08", build=build, known=known,
                                           what="programs with macros vs their ideal expansion", rule=rule, extra=extra)
